@@ -309,6 +309,45 @@ def unique_rule(ctx, p, K):
                message="the flat overlap counter must advance by 1 exactly once per (data_0, overlap) pair, after that pair's contributions")
 
 
+def mirror_rule(ctx, p, K):
+    """curvature_matrix_mirrored_from: the w-tilde kernels fill one triangle of F only; the mirror must produce, on an all-zero array of the same shape and over ALL (i, j),
+    both the direct copy [a, b] <- F[a, b] and the transposed copy [b, a] <- F[a, b], each written only where F[a, b] is non-zero (zero-test), and nothing else."""
+    rule = "C04.mirror"
+    f = p.func("autoarray.inversion.inversion.inversion_util:curvature_matrix_mirrored_from")
+    S = K.summarize(f)
+    out = S.returned_array_names()
+    ok = len(out) == 1
+    det = ""
+    if ok:
+        r = S.env.get(out[0])
+        name = [a for a in f.params][0]
+        sh = (S_(f"{name}.shape[0]"), S_(f"{name}.shape[1]"))
+        sts = S.stores_to(out[0])
+        ok = getattr(r, "init", None) is not None and r.init[0] == "zeros" and tuple(r.shape or ()) == sh and len(sts) >= 2
+        direct = transposed = False
+        for s in sts:
+            gs = real_guards(s.guards)
+            good = len(s.loops) == 2 and len(s.idx) == 2 and s.op == "=" and isinstance(s.value, Ref) and s.value.name == name and len(s.value.idx) == 2 and len(gs) == 1 \
+                and is_full_range(s.loops[0], [sh[0]]) and is_full_range(s.loops[1], [sh[1]])
+            if good:
+                i, j = S_(s.loops[0].var), S_(s.loops[1].var)
+                a, b = s.value.idx
+                good = {a, b} == {i, j} and a != b and is_zero_test(gs[0], Poly.elem(name, a, b))
+                if good and s.idx == (a, b):
+                    direct = True
+                elif good and s.idx == (b, a):
+                    transposed = True
+                else:
+                    good = False
+            if not good:
+                ok = False
+                det = repr(s)[:200]
+        ok = ok and direct and transposed
+        det = det or f"{len(sts)} guarded copies; direct={direct} transposed={transposed}"
+    ctx.ob(rule, f.key, ok, where=f, node=f.node, construct=det,
+           message="the mirrored matrix must hold F[a, b] at [a, b] and at [b, a] for every non-zero entry (zero-test only), on zeros of F's shape, over the full index range")
+
+
 def mapping_rule(ctx, p, K):
     rule = "C04.mapping"
     f = p.func(f"{IU}:data_vector_via_blurred_mapping_matrix_from")
@@ -544,6 +583,7 @@ def run(ctx):
     ctx.rule("C04.wtilde-value", "overlap value = sum kernel[k0] kernel[k0 + (ip0-ip1)] / noise^2 at ip0 + k0 - floor(K/2); bounds of the second index per axis; axis-pure no-overlap shortcut")
     ctx.rule("C04.preload", "sparse overlap table: upper triangle, every non-zero overlap kept (zero-test only), diagonal halved iff the consumer adds the transpose, slot/length counters")
     ctx.rule("C04.unique", "unique-mapping kernels accumulate w0*w1*overlap into F[pix0, pix1] and w*w_tilde_data into D[pix], with the flat overlap counter advanced once per pair")
+    ctx.rule("C04.mirror", "curvature_matrix_mirrored_from copies every non-zero entry to its own and to the transposed position (zero-test only) on zeros, over the full range")
     ctx.rule("C04.mapping", "mapping formalism: D[q] += d*B/sigma^2 ; F = (B/sigma)^T (B/sigma)")
     ctx.rule("C04.diag", "the small diagonal term is added only at no_regularization_index_list, only when non-empty, with the configured value, at every call site")
     ctx.rule("C04.blocks", "block offsets follow linear_obj_list order: offset advanced by params once per object unconditionally; consumers zip ranges of all objects with the list")
@@ -552,6 +592,7 @@ def run(ctx):
     preload_rule(ctx, p, K)
     unique_rule(ctx, p, K)
     mapping_rule(ctx, p, K)
+    mirror_rule(ctx, p, K)
     diag_rule(ctx, p, K)
     blocks_rule(ctx, p, K)
     ctx.rule("C04.assembly", "w-tilde block assembly: each block is computed from the objects selected by the same loop variables (and class) as the ranges it is written to; off-diagonal = D01 + D10^T")
@@ -561,6 +602,8 @@ def run(ctx):
 _M = "autoarray/inversion/inversion/imaging/inversion_imaging_util.py"
 _A = "autoarray/inversion/inversion/abstract.py"
 CONTROLS = [
+    Control("mirror writes the transposed copy from the wrong entry", "autoarray/inversion/inversion/inversion_util.py", in_func("curvature_matrix_mirrored_from", "                curvature_matrix_mirrored[j, i] = curvature_matrix[i, j]\n            if", "                curvature_matrix_mirrored[j, i] = curvature_matrix[j, i]\n            if"), "C04.mirror"),
+    Control("twin: redundant direct copy of the first branch dropped (the second branch of the transposed iteration writes it)", "autoarray/inversion/inversion/inversion_util.py", in_func("curvature_matrix_mirrored_from", "                curvature_matrix_mirrored[i, j] = curvature_matrix[i, j]\n                curvature_matrix_mirrored[j, i] = curvature_matrix[i, j]\n", "                curvature_matrix_mirrored[j, i] = curvature_matrix[i, j]\n"), None, twin=True),
     Control("w_tilde_data: shifts swapped back", _M, in_func("w_tilde_data_imaging_from", "kernel_shift_y = -(kernel_native.shape[0] // 2)", "kernel_shift_y = -(kernel_native.shape[1] // 2)"), "C04.wtilde-data"),
     Control("curvature value: x shift from axis 0", _M, in_func("w_tilde_curvature_value_from", "kernel_shift_x = -(kernel_native.shape[1] // 2)", "kernel_shift_x = -(kernel_native.shape[0] // 2)"), "C04.wtilde-value"),
     Control("preload keeps only positive overlaps", _M, in_func("w_tilde_curvature_preload_imaging_from", "if noise_value != 0.0:", "if noise_value > 0.0:"), "C04.preload"),
